@@ -95,6 +95,17 @@ def quote_string(value: bytes) -> bytes:
 
 ########################################################################
 #
+def quoted_str(value: str) -> str:
+    r"""
+    Like `quote_string()` for text that is encoded later on: an IMAP `quoted`
+    string with `\` and `"` escaped and CR and LF dropped.
+    """
+    value = value.replace("\r", "").replace("\n", "")
+    return '"' + value.replace("\\", "\\\\").replace('"', '\\"') + '"'
+
+
+########################################################################
+#
 def encode_addrs(msg: Message, field: str) -> bytes:
     """
     Encode all the email addresses in a given field in the message as an
@@ -559,12 +570,12 @@ class FetchAtt:
         for value in values:
             if "," in value:
                 for lng in value.split(","):
-                    langs.add(f'"{lng.strip()}"')
+                    langs.add(quoted_str(lng.strip()))
             elif ";" in value:
                 for lng in value.split(";"):
-                    langs.add(f'"{lng.strip()}"')
+                    langs.add(quoted_str(lng.strip()))
             else:
-                langs.add(f'"{value.strip()}"')
+                langs.add(quoted_str(value.strip()))
 
         if not langs:
             return b"NIL"
@@ -623,7 +634,7 @@ class FetchAtt:
 
         results = []
         for k, v in params.items():
-            results.append(f'"{k.upper()}" "{v}"')
+            results.append(f"{quoted_str(k.upper())} {quoted_str(v)}")
 
         try:
             res = (f"({' '.join(results)})").encode("latin-1")
@@ -667,12 +678,12 @@ class FetchAtt:
 
         params = msg["Content-Disposition"].params  # type: ignore[union-attr]
         if not params:
-            return (f'("{cd}" NIL)').encode("latin-1")
+            return (f"({quoted_str(cd)} NIL)").encode("latin-1")
 
         result = []
         for param, value in params.items():
-            result.append(f'"{param.upper()}" "{value}"')
-        res = f'("{cd.upper()}" ({" ".join(result)}))'
+            result.append(f"{quoted_str(param.upper())} {quoted_str(value)}")
+        res = f'({quoted_str(cd.upper())} ({" ".join(result)}))'
         try:
             return res.encode("latin-1")
         except UnicodeEncodeError:
